@@ -12,7 +12,8 @@ values  `N<dec>` `S<hex|->` `A<hex>` `U` `B0` `B1` `P <l> <r>` `none <ty>` `some
 instrs  `TICKET` `READ_TICKET` `SPLIT_TICKET` `JOIN_TICKETS` `PAIR` `UNPAIR` `CAR` `CDR` `SOME` `NONE <ty>` `IF_NONE { … } { … }`
         `CONS` `NIL <ty>` `ITER { … }` `MAP { … }` `DUP` `DUPN:<n>` `SWAP` `DIG:<n>` `DUG:<n>` `DROP` `DIP { … }` `DIPN:<n> { … }`
         `PUSH <ty> <val>` `EMPTY_MAP <k> <v>` `EMPTY_BIG_MAP <k> <v>` `GET` `GET_AND_UPDATE` `UPDATE` `{ … }`
-        `LEFT <ty>` `RIGHT <ty>` `IF_LEFT { … } { … }` `EMPTY_SET <ty>` `MEM`
+        `LEFT <ty>` `RIGHT <ty>` `IF_LEFT { … } { … }` `EMPTY_SET <ty>` `MEM` `LAMBDA <a> <b> { … }` `EXEC` `APPLY`
+        (a lambda value is printed as `LAM <a> <b>`)
 line    `seg <self-hex> { … } seg <self-hex> { … } …`   (segments run one after the other on the same stack, each with its
         own self address)
 answer  `ok <typedStores 0|1> <static 0|1> <k> <val>…` (final stack, top first; `static` = every segment passed the type
@@ -33,6 +34,10 @@ partial def readTy : List String → Option (Ty × List String)
     let (b, r) ← readTy r
     pure (.or a b, r)
   | "set" :: r => (readTy r).map fun (t, r) => (.set t, r)
+  | "lambda" :: r => do
+    let (a, r) ← readTy r
+    let (b, r) ← readTy r
+    pure (.lambda a b, r)
   | "option" :: r => (readTy r).map fun (t, r) => (.option t, r)
   | "list" :: r => (readTy r).map fun (t, r) => (.list t, r)
   | "ticket" :: r => (readTy r).map fun (t, r) => (.ticket t, r)
@@ -162,6 +167,11 @@ mutual
     | "LEFT" :: r => (readTy r).map fun (t, r) => (.left t, r)
     | "RIGHT" :: r => (readTy r).map fun (t, r) => (.right t, r)
     | "EMPTY_SET" :: r => (readTy r).map fun (t, r) => (.emptySet t, r)
+    | "LAMBDA" :: r => do
+      let (a, r) ← readTy r
+      let (b, r) ← readTy r
+      let (body, r) ← readBlock r
+      pure (.lambda a b body, r)
     | "ITER" :: r => (readBlock r).map fun (b, r) => (.iter b, r)
     | "MAP" :: r => (readBlock r).map fun (b, r) => (.map b, r)
     | "DIP" :: r => (readBlock r).map fun (b, r) => (.dip b, r)
@@ -192,6 +202,8 @@ mutual
       | ["GET_AND_UPDATE"] => some (.getAndUpdate, r)
       | ["UPDATE"] => some (.update, r)
       | ["MEM"] => some (.mem, r)
+      | ["EXEC"] => some (.exec, r)
+      | ["APPLY"] => some (.apply, r)
       | _ => none
     | [] => none
   partial def readBlock : List String → Option (List Instr × List String)
@@ -219,6 +231,7 @@ partial def showTy : Ty → List String
   | .pair a b => "pair" :: showTy a ++ showTy b
   | .or a b => "or" :: showTy a ++ showTy b
   | .set t => "set" :: showTy t
+  | .lambda a b => "lambda" :: showTy a ++ showTy b
   | .option t => "option" :: showTy t
   | .list t => "list" :: showTy t
   | .map k v => "map" :: showTy k ++ showTy v
@@ -255,6 +268,7 @@ mutual
     | .left v rt => "left" :: showVal v ++ showTy rt
     | .right lt v => "right" :: showTy lt ++ showVal v
     | .set t xs => ("E" ++ toString xs.length) :: showTy t ++ xs.map showAtom
+    | .lam a b _ => "LAM" :: showTy a ++ showTy b          -- the code is observed through EXEC only
   partial def showVals : List Val → List String
     | [] => []
     | x :: xs => showVal x ++ showVals xs
